@@ -23,7 +23,7 @@ ROOT = os.path.dirname(os.path.dirname(os.path.abspath(__file__)))
 COQ = os.path.join(ROOT, "coq")
 HARNESS = os.path.join(ROOT, "harness")
 BUILD = os.path.join(ROOT, "build")
-REPO = "/repo"
+REPO = os.environ.get("VERIF_REPO", "/repo")   # /repo unless a scratch worktree is being tested
 NCPU = min(16, os.cpu_count() or 4)
 
 GOENV = dict(os.environ)
@@ -56,7 +56,7 @@ class Ctx:
         self.tier = tier
         self.seed = seed
         self.t0 = time.time()
-        self.work = os.path.join(BUILD, self.pid)
+        self.work = os.path.join(BUILD, self.pid + ("" if REPO == "/repo" else "-" + hashlib.sha1(REPO.encode()).hexdigest()[:8]))
         shutil.rmtree(self.work, ignore_errors=True)
         os.makedirs(self.work, exist_ok=True)
         os.makedirs(os.path.join(ROOT, "replays", self.pid), exist_ok=True)
@@ -174,9 +174,20 @@ def build_proofs(ctx):
 
 def build_harness(ctx, name=None, race=False):
     name = name or ctx.cfg["harness"]
-    shutil.copy(os.path.join(REPO, "go.sum"), os.path.join(HARNESS, "go.sum"))
-    out_bin = os.path.join(BUILD, name + ("-race" if race else ""))
-    cmd = ["go", "build", "-tags", "verif"]
+    suffix = ""
+    modflag = []
+    if REPO != "/repo":
+        # scratch worktree under test: same harness sources, alternative go.mod whose replace points there
+        suffix = "-" + hashlib.sha1(REPO.encode()).hexdigest()[:8]
+        alt = os.path.join(HARNESS, "alt%s.mod" % suffix)
+        with open(alt, "w") as f:
+            f.write(open(os.path.join(HARNESS, "go.mod")).read().replace("=> /repo", "=> " + REPO))
+        shutil.copy(os.path.join(REPO, "go.sum"), os.path.join(HARNESS, "alt%s.sum" % suffix))
+        modflag = ["-modfile=" + alt]
+    else:
+        shutil.copy(os.path.join(REPO, "go.sum"), os.path.join(HARNESS, "go.sum"))
+    out_bin = os.path.join(BUILD, name + suffix + ("-race" if race else ""))
+    cmd = ["go", "build", "-tags", "verif"] + modflag
     env = dict(GOENV)
     if race:
         cmd.append("-race")
@@ -326,10 +337,22 @@ def shrink(ctx, binp, case, budget_s=60):
 
 
 def load_known():
+    """KNOWN_FINDINGS.json is the committed list; known/Cxx.json fragments (merged into it by bin/genknown)
+    are read too so that a fragment edited a moment ago is honoured."""
+    res = {"open": [], "fixed": []}
     p = os.path.join(ROOT, "KNOWN_FINDINGS.json")
-    if not os.path.exists(p):
-        return {"open": [], "fixed": []}
-    return json.load(open(p))
+    if os.path.exists(p):
+        res = json.load(open(p))
+    kd = os.path.join(ROOT, "known")
+    if os.path.isdir(kd):
+        for fn in sorted(os.listdir(kd)):
+            if fn.endswith(".json"):
+                frag = json.load(open(os.path.join(kd, fn)))
+                for key in ("open", "fixed"):
+                    for e in frag.get(key, []):
+                        if e not in res[key]:
+                            res[key].append(e)
+    return res
 
 
 def handle_mismatches(ctx, binp, recs, bad, source):
